@@ -43,6 +43,7 @@ type Contract struct {
 	NoBody    bool
 	SafeUnder *SX // automatic safety obligations are claimed only under this condition
 	Uses      []string
+	Waive     [][2]string // obligation-name suffix, reason: assumed instead of checked (listed)
 	AfterCall []*Clause // must hold right after every abstract (external) call: crash points
 }
 
@@ -277,6 +278,9 @@ func (cs *ContractSet) handle(cur **Contract, txt, src string) error {
 	case "modifies":
 		c.ModSet = true
 		c.Modifies = append(c.Modifies, strings.Fields(rest)...)
+	case "waive":
+		pat, reason := splitHead(rest)
+		c.Waive = append(c.Waive, [2]string{pat, reason})
 	case "after-each-call":
 		cl, err := parseClause("crash", rest, src)
 		if err != nil {
